@@ -194,7 +194,7 @@ PROPS = {
         ],
         "units": [
             regress("C11"),
-            {"run": "^TestC11$", "quick": 1500, "thorough": 6000},
+            {"run": "^TestC11$", "quick": 1500, "thorough": 3000},
         ],
     },
     "C20": {
